@@ -1,7 +1,7 @@
 (* C20 -- NAT hole punching: authenticated, complementary instructions, bounded state.
    Statements only; proofs are in Proofs/NatHoleProofs.v, Proofs/NatHoleToday.v (and Proofs/NatHoleCtlProofs.v).
    [nh_today] is the table/guard data regenerated from pkg/nathole by translator unit T2 on every run. *)
-From FRP Require Import Model.NatHoleToday Proofs.NatHoleProofs Proofs.NatHoleToday.
+From FRP Require Import Model.NatHoleToday Model.NatHoleCtl Proofs.NatHoleProofs Proofs.NatHoleToday Proofs.NatHoleCtlProofs.
 Open Scope Z_scope.
 
 (* Reflective obligation over today's source: the five mode tables, getBehaviorByMode, the swap guards of
@@ -122,6 +122,101 @@ Theorem C20_instruction_only_if_wellformed :
 Proof. exact (nh_T_instruction_only_if_wellformed C20_source_tables_check). Qed.
 Print Assumptions C20_instruction_only_if_wellformed.
 
+(* ---- the controller's session table: every state, every schedule of atomic steps; [auth] is util.GetAuthKey ---- *)
+
+(* HandleVisitor either answers the requester alone and leaves the table as it is, or inserts ONE session -- and then
+   the request is not a pre-check, names a registered (live) xtcp proxy, carries that proxy's signature over its
+   timestamp, and comes from an allowed user *)
+Theorem C20_session_only_if_signed_and_live :
+  forall auth st vm tr user st' outs,
+  ctl_step nh_today auth st (EvVisitor vm tr user) = Some (st', outs) ->
+  (st_sess st' = st_sess st /\ exists e, outs = [OutReply tr (nh_err_resp (vm_tid vm) e)] /\
+     (e = NeNone -> vm_precheck vm = true)) \/
+  (exists cfg s, In cfg (st_cfgs st) /\ cc_name cfg = vm_proxy vm /\ vm_precheck vm = false /\
+     vm_signkey vm = auth (cc_sk cfg) (vm_ts vm) /\ ctl_allowed cfg user = true /\
+     st_sess st' = st_sess st ++ [s] /\ ss_sid s = st_next_sid st /\ ss_vmsg s = vm /\ ss_vtr s = tr /\
+     ss_chan s = cc_chan cfg /\ ss_in_table s = true /\ ss_pc s = PcNotify /\ outs = []).
+Proof. exact (ctl_session_only_if_signed_and_live nh_today). Qed.
+Print Assumptions C20_session_only_if_signed_and_live.
+
+Theorem C20_no_other_event_creates_a_session :
+  forall auth st e st' outs, ctl_step nh_today auth st e = Some (st', outs) ->
+  (forall vm tr user, e <> EvVisitor vm tr user) -> map ss_sid (st_sess st') = map ss_sid (st_sess st).
+Proof. exact (ctl_other_events_add_no_session nh_today). Qed.
+Print Assumptions C20_no_other_event_creates_a_session.
+
+(* a response of session t is sent only by its own send steps: the visitor's copy to the transporter of the
+   NatHoleVisitor, the owner's copy to the transporter of the latest NatHoleClient carrying this sid *)
+Theorem C20_response_to_exactly_two :
+  forall auth st e st' outs t role tr r,
+  ctl_step nh_today auth st e = Some (st', outs) -> In (OutResp t role tr r) outs ->
+  exists s rv rc, ctl_find t (st_sess st) = Some s /\ ss_resps s = Some (rv, rc) /\ outs = [OutResp t role tr r] /\
+    ((role = ToVisitor /\ e = EvSendV t /\ tr = ss_vtr s /\ r = rv /\ exists c, ss_pc s = PcSend false c) \/
+     (role = ToClient /\ e = EvSendC t /\ r = rc /\ (exists cm, ss_client s = Some (cm, tr)) /\ exists v, ss_pc s = PcSend v false)).
+Proof. exact (ctl_response_destinations nh_today). Qed.
+Print Assumptions C20_response_to_exactly_two.
+
+(* and each of the two send steps disables itself *)
+Theorem C20_response_sent_once :
+  forall auth st t st' outs,
+  (ctl_step nh_today auth st (EvSendV t) = Some (st', outs) -> ctl_step nh_today auth st' (EvSendV t) = None) /\
+  (ctl_step nh_today auth st (EvSendC t) = Some (st', outs) -> ctl_step nh_today auth st' (EvSendC t) = None).
+Proof. exact (ctl_send_disables_itself nh_today). Qed.
+Print Assumptions C20_response_sent_once.
+
+(* all schedules: the invariant (unique sids; in the table exactly while HandleVisitor has not returned; analyzer records intact) *)
+Theorem C20_schedule_invariant :
+  forall auth evs, ctl_inv nh_today (fst (ctl_run nh_today auth ctl_init evs)).
+Proof. exact (fun auth evs => ctl_run_inv nh_today auth (nh_T_ok C20_source_tables_check) evs ctl_init (ctl_inv_init nh_today)). Qed.
+Print Assumptions C20_schedule_invariant.
+
+(* the analysis step of a woken session can always be taken: no address list makes the controller crash *)
+Theorem C20_analysis_never_crashes :
+  forall auth evs t s cm ctr, let st := fst (ctl_run nh_today auth ctl_init evs) in
+  ctl_find t (st_sess st) = Some s -> ss_pc s = PcAnalyse -> ss_client s = Some (cm, ctr) ->
+  exists st', ctl_step nh_today auth st (EvAnalyse t) = Some (st', []).
+Proof.
+  exact (fun auth evs t s cm ctr => ctl_analyse_enabled nh_today auth (nh_T_ok C20_source_tables_check) _ t s cm ctr
+           (ctl_run_inv nh_today auth (nh_T_ok C20_source_tables_check) evs ctl_init (ctl_inv_init nh_today))).
+Qed.
+Print Assumptions C20_analysis_never_crashes.
+
+(* all schedules, at quiescence (no HandleVisitor invocation can take a step): whatever is still in the table belongs
+   to an invocation blocked in  clientCfg.sidCh <- sid  whose receiver (the proxy's goroutine) is gone *)
+Theorem C20_sessions_at_quiescence :
+  forall auth evs, let st := fst (ctl_run nh_today auth ctl_init evs) in
+  ctl_quiescent st = true ->
+  forall s, In s (st_sess st) -> ss_in_table s = true ->
+  ss_pc s = PcNotify /\ ctl_zin (ss_chan s) (st_alive st) = false.
+Proof.
+  exact (fun auth evs => ctl_quiescent_sessions nh_today _
+           (ctl_run_inv nh_today auth (nh_T_ok C20_source_tables_check) evs ctl_init (ctl_inv_init nh_today))).
+Qed.
+Print Assumptions C20_sessions_at_quiescence.
+
+(* hence: sessions empty at quiescence, EXCEPT for hand-overs to an owner that went away (finding F-C20b) *)
+Theorem C20_sessions_empty_at_quiescence_partial :
+  forall auth evs, let st := fst (ctl_run nh_today auth ctl_init evs) in
+  ctl_quiescent st = true ->
+  (forall s, In s (st_sess st) -> ss_pc s = PcNotify -> ctl_zin (ss_chan s) (st_alive st) = true) ->
+  ctl_table st = [].
+Proof.
+  exact (fun auth evs => ctl_sessions_empty_at_quiescence_partial nh_today _
+           (ctl_run_inv nh_today auth (nh_T_ok C20_source_tables_check) evs ctl_init (ctl_inv_init nh_today))).
+Qed.
+Print Assumptions C20_sessions_empty_at_quiescence_partial.
+
+(* the full clause is refuted by the faithful model: owner registers, a correctly signed visitor request is accepted,
+   the owner closes before taking the sid: quiescent, and the session stays (replayed on the real Controller by the driver) *)
+Definition ex_vm0 : nh_vmsg :=
+  {| vm_tid := [x74]; vm_proxy := [x70]; vm_precheck := false; vm_protocol := []; vm_signkey := []; vm_ts := 0;
+     vm_mapped := []; vm_assisted := [] |}.
+Theorem C20_sessions_empty_at_quiescence_refuted :
+  exists evs, let st := fst (ctl_run nh_today (fun _ _ => []) ctl_init evs) in
+  ctl_quiescent st = true /\ ctl_table st = [0].
+Proof. exists [EvListen [x70] [] [ctl_star]; EvVisitor ex_vm0 0 []; EvClose [x70]]. vm_compute. split; reflexivity. Qed.
+Print Assumptions C20_sessions_empty_at_quiescence_refuted.
+
 (* ---- the hypotheses are satisfiable, the branches are inhabited ---- *)
 Definition ex_hard_regular : nh_feature := {| nf_nat := NhHard; nf_behav := NhPortChanged; nf_diff := 3; nf_regular := true; nf_public := false |}.
 Definition ex_easy : nh_feature := {| nf_nat := NhEasy; nf_behav := NhNoChange; nf_diff := 0; nf_regular := false; nf_public := false |}.
@@ -154,4 +249,20 @@ Example C20_ex_out_of_range :
   | Some (_, rv, rc) => Some (r_err rv, r_err rc, r_role rv, r_sid rc)
   | None => None
   end = Some (NeClassifyVisitor CePort, NeClassifyVisitor CePort, NhNoRole, []).
+Proof. vm_compute. reflexivity. Qed.
+
+(* a complete session: hand-over, owner's answer, wake, analysis, both sends, sleep, delete -> table empty again *)
+Example C20_ex_session :
+  let evs := [EvListen [x70] [] [ctl_star]; EvVisitor (ex_vm [ex_addr "1.2.3.4:4000"; ex_addr "1.2.3.4:4003"]) 0 [];
+              EvDeliver 0; EvClient (ex_cm [ex_addr "5.6.7.8:80"; ex_addr "5.6.7.8:80"]) 1; EvWake 0; EvAnalyse 0;
+              EvSendC 0; EvSendV 0; EvSleepDone 0] in
+  let '(st, outs) := ctl_run nh_today (fun _ _ => []) ctl_init
+        (map (fun e => match e with
+                       | EvVisitor vm tr u => EvVisitor {| vm_tid := vm_tid vm; vm_proxy := [x70]; vm_precheck := false; vm_protocol := vm_protocol vm;
+                                                           vm_signkey := []; vm_ts := 0; vm_mapped := vm_mapped vm; vm_assisted := vm_assisted vm |} tr u
+                       | EvClient cm tr => EvClient {| cm_tid := cm_tid cm; cm_proxy := cm_proxy cm; cm_sid := ctl_sid_bytes 0;
+                                                       cm_mapped := cm_mapped cm; cm_assisted := cm_assisted cm |} tr
+                       | e => e end) evs) in
+  (ctl_table st, ctl_quiescent st, map (fun o => match o with OutResp t _ tr r => (t, tr, r_role r) | _ => (-1, -1, NhNoRole) end) outs)
+  = ([], true, [(-1, -1, NhNoRole); (-1, -1, NhNoRole); (0, 1, NhReceiver); (0, 0, NhSender)]).
 Proof. vm_compute. reflexivity. Qed.
